@@ -2,6 +2,7 @@ package main
 
 import (
 	"context"
+	"math"
 	"database/sql"
 	"encoding/json"
 	"errors"
@@ -467,6 +468,12 @@ func (e *repoExec) execWith(h sim.History, next func(dump []def.Task, issued []s
 				skipUTC = true
 			}
 			fresh, _ := newRepoUnderTest("mem", e.scratch)
+			if len(tok) > 1 && tok[1] == "cur" {
+				// load INTO THE REPOSITORY IN USE (whatever it holds by now): Load replaces the whole contents, also when
+				// the snapshot is empty; the insertion counter continues after the loaded tasks
+				fresh.closeFn()
+				fresh = u
+			}
 			if e.scribble {
 				// hand Load a private deep copy; it is scribbled over right after Load returned (below)
 				cp := make([]inmemory.KeyValue, len(kv))
@@ -485,7 +492,9 @@ func (e *repoExec) execWith(h sim.History, next func(dump []def.Task, issued []s
 				// the original repository is rebuilt from the same snapshot point only if no op happened
 				// after `sav`; otherwise lock-step comparison is meaningless, so the twin is the loaded
 				// state's source only when it still equals the snapshot.
-				if sameKV(u.mem.Save(), snap) && !skipUTC { // a re-zoned snapshot is compared with the model only
+				if fresh == u {
+					twin = nil
+				} else if sameKV(u.mem.Save(), snap) && !skipUTC { // a re-zoned snapshot is compared with the model only
 					twin = u
 				} else {
 					u.closeFn()
@@ -850,7 +859,7 @@ func (g *repoGen) next(dump []def.Task, issued []string, impl string) string {
 	case w < 98 && impl != "mem" && g.profile == "recover":
 		return fmt.Sprintf("%s %s %s", rng.Pick(r, []string{"rev", "cdp", "del", "rev"}), "0", g.tick())
 	default:
-		return fmt.Sprintf("fnd %s %d %d %s", c, r.Intn(3), rng.Pick(r, []int{-1, -1, 1, 2, 5}), proto.Query(g.query(dump)))
+		return fmt.Sprintf("fnd %s %d %d %s", c, r.Intn(3), rng.Pick(r, []int{-1, -1, 1, 2, 5, math.MaxInt, math.MaxInt - 1, math.MinInt}), proto.Query(g.query(dump)))
 	}
 }
 
@@ -1008,9 +1017,20 @@ func cmdRepo(args []string) {
 			defer func() { scribbledTotal.Add(int64(e.scribbled)) }()
 			h := sim.History{Header: "new " + *impl}
 			count := 0
-			snapAt := -1
+			snapAt, lodAt, lodKind := -1, -1, ""
 			if *profile == "snapshot" {
 				snapAt = 3 + r.Intn(c.length/2)
+				lodAt = snapAt + 1
+				lodKind = rng.Pick(r, []string{"raw", "json", "zone"})
+				if r.Chance(1, 4) {
+					// the snapshot is loaded later, into the repository in use (which has moved on); now and then it is the
+					// snapshot of the still EMPTY repository
+					lodKind = "cur"
+					if r.Chance(1, 4) {
+						snapAt = 1
+					}
+					lodAt = snapAt + 1 + r.Intn(6)
+				}
 			}
 			var gen []string
 			badDone := false
@@ -1023,6 +1043,10 @@ func cmdRepo(args []string) {
 				switch {
 				case count == snapAt:
 					l = "sav"
+				case count == lodAt && lodKind == "cur":
+					l = "lod cur"
+				case lodKind == "cur":
+					l = g.next(dump, issued, implFamily(*impl))
 				case count == snapAt+1 && !badDone && r.Chance(1, 4):
 					badDone = true
 					count--
@@ -1032,7 +1056,7 @@ func cmdRepo(args []string) {
 					// whatever the refused load left behind must not show
 					l = g.next(dump, issued, implFamily(*impl))
 				case count == snapAt+1:
-					l = "lod " + rng.Pick(r, []string{"raw", "json", "zone"})
+					l = "lod " + lodKind
 				default:
 					l = g.next(dump, issued, implFamily(*impl))
 				}
